@@ -228,6 +228,16 @@ def finish(ctx, prop, violations, known_lines, ev_extra, tie, arep):
         print(l)
     for rp, suffix in violations:
         print(("VIOLATION property=%s replay=%s %s" % (pid, rp, suffix)).rstrip())
+        # excerpt of the replay, so that a log of this run alone shows what failed
+        try:
+            with open(rp) as f:
+                for n, l in enumerate(f):
+                    if n >= 14:
+                        print("  | ...")
+                        break
+                    print("  | " + l.rstrip("\n")[:400])
+        except OSError:
+            pass
     print("%s %s tier=%s seed=%d theorems=%d/%d evaluations=%d wall=%.1fs" % (
         pid, "FAIL" if violations else "ok", ctx.tier, ctx.seed, discharged, len(ths),
         cov["evaluations"], time.time() - ctx.t0))
